@@ -4,6 +4,7 @@ import (
 	"encoding/json"
 	"math"
 	"math/rand"
+	"runtime"
 	"sort"
 	"strconv"
 	"sync"
@@ -181,6 +182,33 @@ func thresholdQTrace(job []byte, out *Out) error {
 			}
 			n = len(qs)
 		}
+		if c >= 27 && c < 31 {
+			// perfectly uniform lists (the statistic is exactly 0, the result exactly 1): n/10 values in every class
+			n = []int{10, 20, 50, 1000}[c-27]
+			qs = qs[:0]
+			for b := 0; b < 10; b++ {
+				for k := 0; k < n/10; k++ {
+					qs = append(qs, (float64(b)+rng.Float64())/10)
+				}
+			}
+			rng.Shuffle(len(qs), func(a, b int) { qs[a], qs[b] = qs[b], qs[a] })
+		}
+		if c >= 31 && c < 35 {
+			// long lists (tens of thousands of values, as a caller pooling many samples would pass)
+			n = []int{16384, 16391, 20000, 65537}[c-31]
+			qs = make([]float64, n)
+			for i := range qs {
+				x := rng.Float64()
+				if c%2 == 0 {
+					x = 0.97*x + 0.03*x*x
+				}
+				qs[i] = x
+			}
+			// the end of the list is not like the rest: a value dropped there changes the statistic
+			for i := n - 40; i < n; i++ {
+				qs[i] = 0.05 * rng.Float64()
+			}
+		}
 		ss := make([]string, n)
 		for i, q := range qs {
 			ss[i] = F(q)
@@ -197,7 +225,13 @@ func thresholdQTrace(job []byte, out *Out) error {
 			for p := 0; p < 3; p++ {
 				cp := append([]float64(nil), qs...)
 				rng.Shuffle(len(cp), func(a, b int) { cp[a], cp[b] = cp[b], cp[a] })
+				// the permuted lists are evaluated with 3, 7 and all processors visible to the runtime
+				prev := runtime.GOMAXPROCS(0)
+				if p < 2 {
+					runtime.GOMAXPROCS([]int{3, 7}[p])
+				}
 				pv = append(pv, Bits(detect.ThresholdQ(cp)))
+				runtime.GOMAXPROCS(prev)
 			}
 			ev["v"], ev["vbits"], ev["pv"] = F(v), Bits(v), pv
 		}()
